@@ -1,4 +1,45 @@
 //! property specific sub commands of the vp binary (child-process observers)
-pub fn dispatch(_args: &[String]) -> Option<i32> {
-    None
+use crate::exec::{Ctx, Exec, Failure};
+use crate::types::History;
+use serde::{Deserialize, Serialize};
+use std::cell::Cell;
+use std::path::PathBuf;
+
+#[derive(Serialize, Deserialize, Clone, Debug)]
+pub struct RunHistoryReq {
+    pub dir: String,
+    pub history: History,
+}
+
+#[derive(Serialize, Deserialize, Clone, Debug)]
+pub struct RunHistoryOut {
+    pub failure: Option<Failure>,
+}
+
+pub fn dispatch(args: &[String]) -> Option<i32> {
+    match args.get(1).map(|s| s.as_str()) {
+        Some("run-history") => {
+            crate::runner::install_panic_hook();
+            let txt = std::fs::read_to_string(&args[2]).ok()?;
+            let req: RunHistoryReq = serde_json::from_str(&txt).ok()?;
+            let _ = std::fs::create_dir_all(&req.dir);
+            let ctx = Ctx {
+                dir: PathBuf::from(&req.dir),
+                exe: None,
+                cur_op: Cell::new(0),
+            };
+            let r = crate::runner::guarded(&ctx, || {
+                let mut e = Exec::new(&req.history, &ctx)?;
+                e.run()?;
+                Ok(e.rep.clone())
+            });
+            let out = RunHistoryOut { failure: r.err() };
+            println!("{}", serde_json::to_string(&out).unwrap());
+            Some(0)
+        }
+        Some("mkgolden") => Some(crate::props::c12::mkgolden(std::path::Path::new(&args[2]))),
+        Some("c16-child") => Some(crate::props::c16::child_main(&args[2])),
+        Some("c03-child") => Some(crate::props::c03::child_main(&args[2])),
+        _ => None,
+    }
 }
